@@ -787,6 +787,9 @@ class StructureVisitor(ASTTemplate):
         else:
             alias_name = COMP_NAME_MAPPING[orig.data_type] if orig.role != Role.MEASURE else name
             comps[alias_name] = self._make_comp(alias_name, orig.data_type)
+        for v_name, v_comp in parent_ds.components.items():
+            if v_comp.role == Role.VIRAL_ATTRIBUTE and v_name not in comps:
+                comps[v_name] = v_comp
         return Dataset(name=parent_ds.name, components=comps, data=None)
 
     def _build_boolean_result_structure(self, ds: Dataset) -> Dataset:
